@@ -1,5 +1,6 @@
 import GeoVerif.Corr.Proto
 import GeoVerif.Model.RhumbSeries
+import GeoVerif.Model.RhumbExact
 import GeoVerif.FP.RunErr
 /-!
 # Correspondence of the whole series path of `Rhumb` with `Model/RhumbSeries.lean`
@@ -15,7 +16,7 @@ ops: `rh_const` (constructor: `_n`, `_rm`, `_c2`, `_pP[]`, `EllipsoidArea`), `rh
 (`RhumbLine::RhumbLine` members and `GenPosition`, series), `rh_dconv` (`DConvert`, every pair), `rh_msx` (`MeanSinXi`, series).
 -/
 namespace GeoVerif.Corr.C09Full
-open GeoVerif GeoVerif.Proto GeoVerif.Rhumb GeoVerif.RhumbS
+open GeoVerif GeoVerif.Proto GeoVerif.Rhumb GeoVerif.RhumbS GeoVerif.RhumbX
 
 def pfl (s : String) : Option Float := if s.length != 16 then none else (hexToNat s).map fun n => Float.ofBits n.toUInt64
 
@@ -42,8 +43,74 @@ def ex (x : Float) : RE := RE.exact x
 /-- `ε²`, `ε = 2⁻⁵²` -/
 def eps2 : Float := Float.ofScientific 1 false 0 / (Float.ofNat (2 ^ 52) * Float.ofNat (2 ^ 52))
 
+/-- `tolRF = pow(3 ε · 0.01, 1/8)`, `tolRD = pow(0.2 (ε · 0.01), 1/8)` of EllipticFunction.cpp -/
+def epsF : Float := 2.220446049250313e-16
+def tolRF : Float := Float.pow (3 * epsF * 0.01) (1 / 8)
+def tolRD : Float := Float.pow (0.2 * (epsF * 0.01)) (1 / 8)
+def RFm : RE → RE → RE → RE := rf (ex tolRF)
+def RDm : RE → RE → RE → RE := rd (ex tolRD)
+
+def takeN (n : Nat) (l : List Float) : Option (List Float × List Float) := if l.length < n then none else some (l.take n, l.drop n)
+def ang (l : List Float) (i : Nat) : Ang RE := (ex (l.getD i 0), ex (l.getD (i + 1) 0))
+
+/-- kernel values of the exact solvers as the harness emits them:
+    `phi1 phi2 chi1 chi2 phix phiy mu1 (pairs) d1 mu2 (pair) rr rm c2 pP…` -/
+def invXOf (k : List Float) : Option (Ang RE × Ang RE × InvX RE) := do
+  let (h, pP) ← takeN 20 k
+  some (ang h 0, ang h 2,
+    { chi1 := ang h 4, chi2 := ang h 6, phix := ang h 8, phiy := ang h 10,
+      rect := { mu1 := ang h 12, d1 := ex (h.getD 14 0), mu2 := ang h 15, rr := ex (h.getD 17 0) },
+      pP := pP.map ex, rm := ex (h.getD 18 0), c2 := ex (h.getD 19 0) })
+
 def handle (op : String) (args res : List String) : Option Verdict :=
   match op with
+  | "rh_carlson" => some <|
+    match args.mapM pfl, res.mapM pfl with
+    | some [x, y, z], some [vf, vd] =>
+      verdictOf "EllipticFunction::RF/RD(x, y, z)" ([cmp "RF" false vf (RFm (ex x) (ex y) (ex z)), cmp "RD" false vd (RDm (ex x) (ex y) (ex z))].filterMap id)
+    | _, _ => .bad "parse"
+  | "rh_de" => some <|
+    match args.mapM pfl, res.mapM pfl with
+    | some [a, f, xy, xx, yy, yx], some [v] =>
+      verdictOf "DAuxLatitude::DE" ([cmp "DE" false v (DE RFm RDm (ellOf (ex a) (ex f)) (ex xy, ex xx) (ex yy, ex yx))].filterMap id)
+    | _, _ => .bad "parse"
+  | "rh_drect" => some <|
+    match args.mapM pfl, res.mapM pfl with
+    | some [a, f, p1y, p1x, p2y, p2x, m1y, m1x, d1, m2y, m2x, rr], some [v] =>
+      let K : RectK RE := { mu1 := (ex m1y, ex m1x), d1 := ex d1, mu2 := (ex m2y, ex m2x), rr := ex rr }
+      verdictOf "DAuxLatitude::DRectifying" ([cmp "DRectifying" false v (DRectifying RFm RDm (ellOf (ex a) (ex f)) K (ex p1y, ex p1x) (ex p2y, ex p2x))].filterMap id)
+    | _, _ => .bad "parse"
+  | "rh_xinv" => some <|
+    match (args.take 6).mapM pfl, (args.drop 6).mapM pfl, res.mapM pfl with
+    | some [a, f, _lat1, lon1, _lat2, lon2], some k, some [s12, azi12, S12] =>
+      if !(lon1.isFinite && lon2.isFinite) then .skip "non-finite longitude" else
+      match invXOf k with
+      | some (phi1, phi2, K) =>
+        if phi1.2.v == 0 || phi2.2.v == 0 then .skip "a pole: the isinf shelters are judged by the harness" else
+        let lon12 := (MathF.angDiff (F64.ofFloat lon1) (F64.ofFloat lon2)).1.toFloat
+        let (ms12, mazi, mS12) := genInverseX RFm RDm (ellOf (ex a) (ex f)) K phi1 phi2 (ex lon12)
+        verdictOf "Rhumb::GenInverse (exact)" ([cmp "s12" false s12 ms12, cmp "azi12" true azi12 mazi, cmp "S12" false S12 mS12].filterMap id)
+      | none => .bad "parse"
+    | _, _, _ => .bad "parse"
+  | "rh_xpos" => some <|
+    match (args.take 6).mapM pfl, args.getD 6 "", (args.drop 7).mapM pfl, res.mapM pfl with
+    | some [a, f, _lat1, lon1, _azi, s12], unr, some (mu1 :: salp :: calp :: mu2h :: k), some [_lat2, lon2, S12] =>
+      if !(lon1.isFinite && s12.isFinite && mu1.isFinite) then .skip "non-finite input" else
+      match invXOf k with
+      | some (phi1, phi2, K) =>
+        let r12 : RE := ex s12 / (K.rm * degree)
+        let mu2 : RE := ex mu1 + r12 * ex calp
+        if !(mu2.v == mu2h) then .bad s!"GenPosition (exact): mu2 = mu1 + r12 calp: harness {sci mu2h}, model {sci mu2.v}" else
+        if !(mu2.v.abs ≤ 90) then .skip "beyond the pole: judged by op rdir" else
+        if phi2.2.v == 0 || K.chi2.2.v == 0 then .skip "point 2 is exactly a pole: the isinf shelters are judged by the harness" else
+        let (lon2x, mS) := genPositionX RFm RDm (ellOf (ex a) (ex f)) K phi1 phi2 (ex salp) r12
+        let lonM : RE :=
+          if unr == "1" then (ex lon1 : RE) + lon2x else
+            let x := F64.toFloat (MathF.angNormalize (MathF.angNormalize (F64.ofFloat lon1) + F64.ofFloat lon2x.v))
+            ⟨x, lon2x.e + RE.u * x.abs⟩
+        verdictOf "RhumbLine::GenPosition (exact)" ([cmp "lon2" (unr != "1") lon2 lonM, cmp "S12" false S12 mS].filterMap id)
+      | none => .bad "parse"
+    | _, _, _, _ => .bad "parse"
   | "rh_const" => some <|
     if res == ["!E"] then .skip "constructor rejects the ellipsoid" else
     match args.mapM pfl, res.mapM pfl with
@@ -121,6 +188,7 @@ def handle (op : String) (args res : List String) : Option Verdict :=
   | "rh_msx" => some <|
     match args.mapM pfl, res.mapM pfl with
     | some [a, f, xy, xx, yy, yx], some [v] =>
+      if xx == 0 && yx == 0 then .skip "both points are poles" else
       let P := params (ex a) (ex f)
       verdictOf "Rhumb::MeanSinXi (series)" ([cmp "MeanSinXi" false v (meanSinXi P (ex xy, ex xx) (ex yy, ex yx))].filterMap id)
     | _, _ => .bad "parse"
